@@ -15,6 +15,7 @@ import sqlalchemy as sqa
 
 from pydiverse.common import (
     Dtype,
+    Duration,
     Float,
     Float64,
     Int,
@@ -24,6 +25,7 @@ from pydiverse.common import (
 )
 from pydiverse.transform._internal.backend.table_impl import TableImpl
 from pydiverse.transform._internal.backend.targets import Polars, SqlAlchemy, Target
+from pydiverse.transform._internal.errors import NotSupportedError
 from pydiverse.transform._internal.ops import ops
 from pydiverse.transform._internal.ops.op import Ftype
 from pydiverse.transform._internal.pipe.table import Cache
@@ -200,6 +202,12 @@ class SqlImpl(TableImpl):
             dialect = get_engine(nd).dialect
         return str(sel.compile(dialect=dialect, compile_kwargs={"literal_binds": True}))
 
+    # whether a `datetime.timedelta` can be rendered as a literal (not the case where
+    # SQLAlchemy emulates INTERVAL)
+    @classmethod
+    def supports_duration_literals(cls) -> bool:
+        return True
+
     # some backends need to do casting to ensure the correct type
     @classmethod
     def compile_lit(cls, lit: LiteralCol):
@@ -331,6 +339,10 @@ class SqlImpl(TableImpl):
             return res
 
         elif isinstance(expr, LiteralCol):
+            if types.without_const(expr.dtype()) == Duration() and not cls.supports_duration_literals():
+                raise NotSupportedError(
+                    f"literals of type `Duration` are not supported by the backend `{cls.backend_name}`"
+                )
             return cls.compile_lit(expr) if compile_literals else expr.val
 
         elif isinstance(expr, Cast):
